@@ -128,12 +128,12 @@ class watch_caches:  # noqa: N801 -- context manager
 
 
 
-def apps_for(cap):
-    if cap not in _APPS:
+def apps_for(cap, prefix=""):
+    if (cap, prefix) not in _APPS:
         if len(_APPS) > 64:
             _APPS.clear()
-        _APPS[cap] = W.make_apps(["w1", "w2", "w0"], cap=cap, cache_entries=1)
-    return _APPS[cap]
+        _APPS[(cap, prefix)] = W.make_apps(["w1", "w2", "w0"], cap=cap, cache_entries=1, prefix=prefix)
+    return _APPS[(cap, prefix)]
 
 
 class Lineage:
@@ -149,7 +149,7 @@ class Stream11:
     """One real producer stream (a configuration) and everything observed about it."""
 
     def __init__(self, ctx: Ctx, cal: Calib, sizes_abs, cap, codec: str, eager: bool, api: str, method: str, seed: int,
-                 logs=None, hdr: int = 0) -> None:
+                 logs=None, hdr: int = 0, rows=None, member: int = 0, prefix: str = "", custom_header: bool = False) -> None:
         from vgi_rpc.http import http_connect
 
         self.ctx, self.cal = ctx, cal
@@ -157,8 +157,11 @@ class Stream11:
         self.sizes = [cal.payload_len(cal.unit * s) for s in sizes_abs]
         self.logs = list(logs) if logs else [0] * len(self.sizes)
         self.cap, self.codec, self.eager, self.api, self.method, self.seed, self.hdr = cap, codec, eager, api, method, seed, hdr
-        self.apps = apps_for(cap)
-        self.router = W.Router(self.apps, accept={"none": "identity"}.get(codec, codec))
+        self.rows = list(rows) if rows else None       # rows-mode (method prodr): 0 / 1 / many rows + application metadata
+        self.member, self.prefix = member, prefix
+        self.apps = apps_for(cap, prefix)
+        self.router = W.Router(self.apps, accept={"none": "identity"}.get(codec, codec), prefix=prefix)
+        self.router.custom_header = custom_header and codec != "none"
         self.cm = http_connect(W.H1Svc, client=self.router)
         self.proxy = self.cm.__enter__()
         self.tokens: dict[int, tuple[bytes, str]] = {}      # position -> (resume blob, source)
@@ -180,17 +183,32 @@ class Stream11:
         kw = {"sizes": self.sizes, "logs": self.logs, "seed": self.seed, "eager": self.eager, "pad": self.cal.pad}
         if self.method == "prodh":
             kw["hdr"] = self.hdr
+        elif self.method == "produ":
+            kw["member"] = self.member
+        elif self.method == "prodr":
+            del kw["logs"]
+            kw["rows"] = self.rows
         return kw
 
-    def _id(self, ab) -> int:
+    def _batch_id(self, batch, md: dict) -> int:
+        """k+1 when the batch is exactly batch k of the script (rows, payload and application metadata), else 0."""
         try:
-            k = ab.batch.column("k")[0].as_py()
-            p = ab.batch.column("p")[0].as_py()
-            if ab.batch.num_rows == 1 and 0 <= k < len(self.sizes) and p == W.payload(self.seed, k, self.sizes[k]):
-                return k + 1
+            if self.rows is None:
+                k = batch.column("k")[0].as_py()
+                ok = batch.num_rows == 1 and 0 <= k < len(self.sizes) and \
+                    batch.column("p")[0].as_py() == W.payload(self.seed, k, self.sizes[k])
+                return k + 1 if ok else 0
+            k = int(md.get(b"k", b"-1"))
+            if not (0 <= k < len(self.sizes)) or md.get(b"tag") != f"m{k}".encode():
+                return 0
+            want = W.rows_batch(self.seed, k, self.sizes[k], self.rows[k], self.cal.pad)
+            return k + 1 if batch.equals(want.cast(batch.schema) if batch.schema != want.schema else want) else 0
         except Exception:  # noqa: BLE001
-            pass
-        return 0
+            return 0
+
+    def _id(self, ab) -> int:
+        cm = ab.custom_metadata
+        return self._batch_id(ab.batch, {bytes(k): bytes(v) for k, v in cm.items()} if cm is not None else {})
 
     def _new_entries(self) -> list[dict]:
         es = self.router.log[self._seen:]
@@ -220,10 +238,7 @@ class Stream11:
                     err = True
                 acc += m["bytes"]
             else:
-                k = m["batch"].column("k")[0].as_py() if m["rows"] == 1 else -1
-                ok = m["rows"] == 1 and 0 <= k < len(self.sizes) and \
-                    m["batch"].column("p")[0].as_py() == W.payload(self.seed, k, self.sizes[k])
-                ids.append(k + 1 if ok else 0)
+                ids.append(self._batch_id(m["batch"], md))
                 cycles.append(acc + m["bytes"])
                 acc = 0
         n = len(ids)
@@ -244,12 +259,13 @@ class Stream11:
 
     def cycle_bytes(self) -> list[int]:
         """Framed bytes of every cycle of the script (data batches are built to k*UNIT; logs are measured)."""
-        key = (tuple(self.sizes), tuple(self.logs), self.cal.pad)
+        key = (tuple(self.sizes), tuple(self.logs), self.cal.pad, tuple(self.rows or ()))
         if key not in Stream11._CYC:
-            if not any(self.logs):
+            if not any(self.logs) and self.rows is None:
                 Stream11._CYC[key] = [self.cal.unit * s for s in self.sizes_abs]
             else:           # reference run without a cap: one cycle per turn, measured
-                ref = Stream11(self.ctx, self.cal, self.sizes_abs, None, "none", False, "iter", "prod", 424242, logs=self.logs)
+                ref = Stream11(self.ctx, self.cal, self.sizes_abs, None, "none", False, "iter",
+                               "prodr" if self.rows is not None else "prod", 424242, logs=self.logs, rows=self.rows)
                 ref.open("w0")
                 ref.drain_all(None)
                 ref.close()
@@ -425,7 +441,7 @@ def _run(ctx: Ctx) -> None:
     all_codecs = '{"none", "zstd", "gzip"}'
 
     # ---- (1) TLC checks the model
-    mc_scripts = [[2, 4], [4, 2, 2], [2, 2, 4]] if quick else _scripts([2, 4, 6], 3)
+    mc_scripts = ([[], [2, 4], [4, 2, 2], [2, 2, 4]] if quick else [[]] + _scripts([2, 4, 6], 3))   # [] = producer with no output
     wrap_module(wd, "Chunking", "MC_Chunk", {"ScriptsDef": _tla_seqs(mc_scripts), "CapsDef": "0..9" if quick else "(0..13) \\cup {15, 17, 19, 21}",
                                              "CodecsDef": '{"none", "zstd"}' if quick else all_codecs,
                                              "ApisDef": '{"iter", "nwt"}', "EagersDef": "BOOLEAN",
@@ -444,7 +460,7 @@ def _run(ctx: Ctx) -> None:
     ctx.extra["design_as_found_counterexample"] = [a for a, _ in fr.counterexample]
 
     # ---- (2) histories from the state graph
-    g_scripts = [[2, 4], [4, 2, 2]] if quick else [[2], [2, 4], [4, 2, 2], [2, 2, 4], [6, 2, 2]]
+    g_scripts = [[], [2, 4], [4, 2, 2]] if quick else [[], [2], [2, 4], [4, 2, 2], [2, 2, 4], [6, 2, 2]]
     g_caps = "{0, 1, 6, 9}" if quick else "0..9"
     wrap_module(wd, "Chunking", "G_Chunk", {"ScriptsDef": _tla_seqs(g_scripts), "CapsDef": g_caps,
                                             "CodecsDef": '{"none", "zstd"}' if quick else all_codecs,   # gzip: extras + sweep
@@ -457,7 +473,8 @@ def _run(ctx: Ctx) -> None:
     def key(s, lab, d):
         c = d["cfg"]
         tot = HDR_UNITS + sum(c["script"])
-        capc = "none" if c["cap"] == 0 else "tiny" if c["cap"] <= HDR_UNITS + c["script"][0] else "all" if c["cap"] > tot else "mid"
+        first = c["script"][0] if c["script"] else 0
+        capc = "none" if c["cap"] == 0 else "tiny" if c["cap"] <= HDR_UNITS + first else "all" if c["cap"] > tot else "mid"
         act = lab.split("(")[0]
         how = lab.split(",")[1].strip(' ")') if act == "Resume" else ""
         return (lab if act in ("Continue", "Evict") else act, how, c["codec"], c["api"], capc,
@@ -507,10 +524,16 @@ def _run(ctx: Ctx) -> None:
         cfg = beh[0]["state"]["cfg"]
         for cap in real_caps(cfg["cap"], cal.unit, ctx.rng, nvar if pi % 4 == 0 or not quick else 1):
             seed_ctr[0] += 1
-            method = "prodc" if (pi + seed_ctr[0]) % 2 else "prod"
-            st = Stream11(ctx, cal, cfg["script"], cap, cfg["codec"], cfg["eager"], cfg["api"], method, seed_ctr[0])
+            # concretisation variants outside the model's state: state shape of the method (cursor-only, call state,
+            # union-typed state with either member, header-declaring), URL prefix, which negotiation header carries the codec
+            method, member = [("prod", 0), ("prodc", 0), ("produ", 0), ("produ", 1), ("prodh", 0)][(pi + seed_ctr[0]) % 5]
+            prefix = "/vgi" if (pi // 5 + seed_ctr[0]) % 2 else ""
+            custom = (pi + seed_ctr[0]) % 3 == 0
+            st = Stream11(ctx, cal, cfg["script"], cap, cfg["codec"], cfg["eager"], cfg["api"], method, seed_ctr[0],
+                          hdr=300, member=member, prefix=prefix, custom_header=custom)
             hist = [{"script": list(cfg["script"]), "unit": cal.unit, "cap_abs": cfg["cap"], "cap": cap, "codec": cfg["codec"],
-                     "eager": cfg["eager"], "api": cfg["api"], "method": method}]
+                     "eager": cfg["eager"], "api": cfg["api"], "method": method, "member": member, "prefix": prefix,
+                     "x_vgi_accept_encoding": st.router.custom_header}]
             nreq = 0
             aligned = True          # the real stream has had the model's turn structure so far
             for bi, b in enumerate(beh):
@@ -552,13 +575,25 @@ def _run(ctx: Ctx) -> None:
         cap = ctx.rng.choice([None, 1, cal.unit * 2 * ctx.rng.randrange(1, 6), ctx.rng.randrange(1, tot + 500)])
         codec = ["zstd", "gzip", "none"][i % 3]
         eager = ctx.rng.random() < 0.5
-        method = ["prod", "prodh", "prodc"][(i // 3) % 3]
-        logs = [ctx.rng.choice([0, 0, 40]) for _ in sizes] if i % 4 == 0 else None
+        method = ["prod", "prodh", "prodc", "prodr"][(i // 3) % 4]
+        logs = [ctx.rng.choice([0, 0, 40]) for _ in sizes] if i % 4 == 0 and method != "prodr" else None
+        rows = [ctx.rng.choice([0, 1, 3]) for _ in sizes] if method == "prodr" else None     # zero-row / multi-row batches
         seed_ctr[0] += 1
-        st = Stream11(ctx, cal, sizes, cap, codec, eager, "iter", method, seed_ctr[0], logs=logs, hdr=300)
+        api = "nwt" if (cap is None and i % 2) else "iter"
+        st = Stream11(ctx, cal, sizes, cap, codec, eager, api, method, seed_ctr[0], logs=logs, hdr=300, rows=rows,
+                      prefix="/vgi" if i % 2 else "", custom_header=i % 5 == 0)
         st.open(ctx.rng.choice(["w1", "w2"]))
-        hist = [{"script": sizes, "unit": cal.unit, "cap": cap, "codec": codec, "eager": eager, "method": method, "logs": logs},
-                "iterate"]
+        hist = [{"script": sizes, "unit": cal.unit, "cap": cap, "codec": codec, "eager": eager, "method": method, "logs": logs,
+                 "rows": rows, "api": api}, "iterate"]
+        # resume from a token in the middle on the other worker as well (per-batch tokens exist when api = nwt)
+        for _ in range(len(sizes) // 2):
+            st.cont(ctx.rng.choice(["w1", "w2"]))
+        mid = [p for p in st.tokens if 0 < p < len(sizes)]
+        if mid:
+            pos = ctx.rng.choice(mid)
+            how = ctx.rng.choice(["seek", "resume"])
+            if st.resume(pos, how):
+                hist.append(f"Resume({pos},{how},{st.cur.src})")
         finish(st, hist, True)
 
     # ---- cap sweep over a 3-batch producer: every byte value in thorough, every boundary +-1 in quick
